@@ -1,6 +1,7 @@
 (* Lemmas about model/OpenClipSpec.v (C05). *)
 From Clip Require Import base.Geom base.Winding base.Region base.Dist base.GenPos model.OpenClipSpec.
-From Coq Require Import QArith.
+From Coq Require Import QArith Lia List.
+Import ListNotations.
 Local Open Scope Z_scope.
 
 (* The table open_in_result is the property text: an open subject point survives
@@ -17,3 +18,117 @@ Proof.
   unfold open_in_result, in_result, combine_ct.
   destruct (inside fr wS), (inside fr wC); repeat split; reflexivity.
 Qed.
+
+(* ---------- the pieces partition [0,1] ---------- *)
+Lemma chain_head lo ts : exists hi r, chain lo ts = (lo, hi) :: r.
+Proof. destruct ts as [|t r]; cbn [chain]; eauto. Qed.
+
+Lemma chain_last lo ts d : snd (last (chain lo ts) d) = 1%Q.
+Proof.
+  revert lo. induction ts as [|t r IH]; intro lo; cbn [chain].
+  - reflexivity.
+  - destruct (chain_head t r) as (hi & r' & E). specialize (IH t). rewrite E in *. exact IH.
+Qed.
+
+Lemma chain_linked lo ts : linked (chain lo ts).
+Proof.
+  revert lo. induction ts as [|t r IH]; intro lo; cbn [chain linked]; auto.
+  destruct (chain_head t r) as (hi & r' & E). specialize (IH t). rewrite E in *. cbn [linked fst snd]. split; auto.
+Qed.
+
+Lemma mk_pieces_partition ts :
+  (exists hi r, mk_pieces ts = (0%Q, hi) :: r) /\ linked (mk_pieces ts) /\ snd (last (mk_pieces ts) (0%Q, 0%Q)) = 1%Q.
+Proof. unfold mk_pieces. split; [apply chain_head|split; [apply chain_linked|apply chain_last]]. Qed.
+
+(* ---------- the crossing parameter ---------- *)
+(* cross c d is affine along the open segment: at the integer-scaled point of [lerp] *)
+Lemma cross_lerp a b c d (t : Q) :
+  let m := lerp (a, b) t in
+  cross (pscale (snd m) c) (pscale (snd m) d) (fst m)
+  = snd m * (Zpos (Qden t) * cross c d a + Qnum t * (cross c d b - cross c d a)).
+Proof. destruct a, b, c, d. unfold lerp, cross, pscale, px, py. cbn [fst snd]. ring. Qed.
+
+(* for a proper crossing the parameter is strictly inside (0,1) and the point at that parameter lies exactly on the
+   supporting line of the closed edge *)
+Lemma cross_par_spec a b c d :
+  proper_cross (a, b) (c, d) = true ->
+  let t := cross_par (a, b) (c, d) in
+  (0 < Qnum t < Zpos (Qden t)) /\
+  let m := lerp (a, b) t in cross (pscale (snd m) c) (pscale (snd m) d) (fst m) = 0.
+Proof.
+  intros H t. unfold proper_cross in H. apply andb_prop in H. destruct H as [_ H]. apply Z.ltb_lt in H.
+  assert (E : Zpos (Qden t) * cross c d a + Qnum t * (cross c d b - cross c d a) = 0 /\ 0 < Qnum t < Zpos (Qden t)).
+  { unfold t, cross_par. set (f0 := cross c d a) in *. set (f1 := cross c d b) in *.
+    destruct (0 <? f0 - f1) eqn:E1; cbn [Qnum Qden].
+    - apply Z.ltb_lt in E1. rewrite Z2Pos.id by lia. split; [ring|].
+      destruct (Z.sgn_spec f0) as [(?&S0)|[(?&S0)|(?&S0)]], (Z.sgn_spec f1) as [(?&S1)|[(?&S1)|(?&S1)]]; rewrite S0, S1 in H; lia.
+    - apply Z.ltb_ge in E1.
+      destruct (Z.sgn_spec f0) as [(?&S0)|[(?&S0)|(?&S0)]], (Z.sgn_spec f1) as [(?&S1)|[(?&S1)|(?&S1)]]; rewrite S0, S1 in H; try lia;
+      try (rewrite Z2Pos.id by lia; split; [ring|lia]). }
+  destruct E as [E R]. split; [exact R|]. intro m. unfold m. rewrite cross_lerp. fold t. rewrite E. ring.
+Qed.
+
+(* ---------- soundness of the interval-cover test ---------- *)
+Local Open Scope Q_scope.
+
+Lemma Qmaxb_ge_l c s : c <= Qmaxb c s.
+Proof. unfold Qmaxb. destruct (Qle_bool c s) eqn:E; [apply Qle_bool_iff in E; exact E|apply Qle_refl]. Qed.
+
+Lemma sweep_inv all lo : forall ivs cur,
+  incl ivs all -> Cov all lo cur -> Cov all lo (sweep ivs cur) /\ cur <= sweep ivs cur.
+Proof.
+  unfold sweep. induction ivs as [|iv r IH]; intros cur Hin Hc; cbn [fold_left].
+  - split; [exact Hc|apply Qle_refl].
+  - assert (Hr : incl r all) by (intros x Hx; apply Hin; right; exact Hx).
+    destruct (Qle_bool (fst iv) cur) eqn:E.
+    + apply Qle_bool_iff in E.
+      assert (Hc' : Cov all lo (Qmaxb cur (snd iv))).
+      { intros q Hlo Hhi. unfold Qmaxb in Hhi. destruct (Qle_bool cur (snd iv)) eqn:E2.
+        - destruct (Qlt_le_dec cur q) as [Hlt|Hle].
+          + exists iv. split; [apply Hin; left; reflexivity|]. split; [|exact Hhi].
+            apply Qle_trans with cur; [exact E|apply Qlt_le_weak; exact Hlt].
+          + apply Hc; assumption.
+        - apply Hc; assumption. }
+      destruct (IH _ Hr Hc') as [H1 H2]. split; [exact H1|].
+      apply Qle_trans with (Qmaxb cur (snd iv)); [apply Qmaxb_ge_l|exact H2].
+    + apply IH; assumption.
+Qed.
+
+Lemma extend_inv all lo : forall fuel cur,
+  Cov all lo cur -> Cov all lo (extend fuel all cur) /\ cur <= extend fuel all cur.
+Proof.
+  induction fuel as [|f IH]; intros cur Hc; cbn [extend].
+  - split; [exact Hc|apply Qle_refl].
+  - destruct (sweep_inv all lo all cur (incl_refl _) Hc) as [H1 H2].
+    destruct (Qle_bool (sweep all cur) cur); [split; [exact Hc|apply Qle_refl]|].
+    destruct (IH _ H1) as [H3 H4]. split; [exact H3|apply Qle_trans with (sweep all cur); assumption].
+Qed.
+
+(* [covered] only says yes when a start interval accepted by start_ok is chained by overlapping intervals to an end point
+   accepted by end_ok, and then every parameter from that start to that end lies in one of the intervals *)
+Lemma covered_sound start_ok end_ok ivs :
+  covered start_ok end_ok ivs = true ->
+  exists a b, start_ok a = true /\ end_ok b = true /\ Cov ivs a b.
+Proof.
+  unfold covered. intro H. apply existsb_exists in H. destruct H as (iv & Hin & H).
+  apply andb_prop in H. destruct H as [Hs He].
+  exists (fst iv), (extend (length ivs) ivs (snd iv)). split; [exact Hs|split; [exact He|]].
+  apply extend_inv. intros q H1 H2. exists iv. auto.
+Qed.
+
+(* ---------- the hypothesis ---------- *)
+Local Open Scope Z_scope.
+Lemma general_position_C05_open S C O : general_position_C05 S C O = true ->
+  general_position (S ++ C) = true /\ gp_open (S ++ C) O = true /\ open_self_clear O = true /\ gp_joint (S ++ C) O = true.
+Proof.
+  unfold general_position_C05, general_position_open, open_general. intro H.
+  apply andb_prop in H. destruct H as [H1 H2]. apply andb_prop in H1. apply andb_prop in H2.
+  destruct H1, H2. auto.
+Qed.
+
+(* an open polyline that folds back on itself (two overlapping collinear segments) is not in general position, although it
+   is in general position relative to the closed paths: the minimised input of triage/C05.md (horizontal spike) *)
+Lemma foldback_not_general :
+  let C := [[(40,-10);(60,-10);(60,16);(40,16)]] in let O := [[(0,40);(100,10);(0,10);(90,10);(95,40)]] in
+  general_position_open [] C O = true /\ general_position_C05 [] C O = false.
+Proof. vm_compute. split; reflexivity. Qed.
